@@ -553,7 +553,10 @@ func (i *interpreter) boundedIndex(x value, n int, where string) int64 {
 	}
 	tt := i.tt
 	w := s.t.w
-	inRange := tt.Cmp("bvult", s.t, tt.ConstU(w, uint64(n)))
+	inRange := tt.Bool(true)
+	if w >= 63 || uint64(n) < uint64(1)<<uint(w) { // else every w-bit index is in range
+		inRange = tt.Cmp("bvult", s.t, tt.ConstU(w, uint64(n)))
+	}
 	if !i.decide(inRange, where+": index in range") {
 		panic(runtimeErr(fmt.Sprintf("runtime error: index out of range [symbolic] with length %d", n)))
 	}
